@@ -103,6 +103,14 @@ start :: fn do
                k6 :: __ealt2(pur, imp)
                k7 :: k6
                a6 :: takes(k7)
+           end,
+           fn do
+               k8: fn -> int : __ealt2(pu -> int do ret 2 end, fn -> int do ret 2 end)
+               a8: pu -> int = k8
+           end,
+           fn do
+               k9: fn -> int : __ealt2(pu -> int do ret 2 end, fn -> int do ret 2 end)
+               a9 :: takes(k9)
            end)
     pr(1)
 end
